@@ -1117,6 +1117,7 @@ func (ro *RedisOutput) sendCmdsBatch(replayWait usync.WaitCloser, conn client.Re
 				length += len(item.Args[i].([]byte))
 			}
 
+			prevOffset := lastOffset
 			lastOffset = item.Offset
 			if item.Cmd == "ping" { // skip ping command, keepaliveTicker handle it[multi/exec, ping issue for cluster]
 				continue
@@ -1125,8 +1126,13 @@ func (ro *RedisOutput) sendCmdsBatch(replayWait usync.WaitCloser, conn client.Re
 			txnStatus, needFlush = transactionStatus(item.Cmd, txnStatus)
 			if transactionMode {
 				if needFlush {
-					// flush previous data
-					err := sendFunc(transactionBatch, shouldUpdateCP, lastOffset)
+					// flush previous data; a select or multi barrier is not part of that
+					// batch, so its checkpoint must not cover the barrier yet
+					flushOffset := lastOffset
+					if txnStatus != txnStatusCommit {
+						flushOffset = prevOffset
+					}
+					err := sendFunc(transactionBatch, shouldUpdateCP, flushOffset)
 					if err != nil {
 						return err
 					}
